@@ -356,7 +356,7 @@ PROPS = {
     },
     "C11": {
         "quick": [phase(16, 2.0, 900)],
-        "thorough": [phase(16, 10.0, 3000)],
+        "thorough": [phase(16, 4.0, 3000)],
         "rule": ("(1) fixed point: for every text a decoder accepts - grammar-generated Zinc with random spellings, the shipped corpus "
                  "files whole and in slices, accepted mutants of both, the library's Hayson for generated values and accepted mutants of "
                  "it, benches/json/points.json - decode, encode, decode again and compare the two decoded values in the strict model; "
